@@ -16,7 +16,7 @@ mkdir -p $S/verif/evidence $S/verif/replays
 git -C /repo worktree remove --force $S/repo 2>/dev/null; rm -rf $S/repo; git -C /repo worktree prune
 git -C /repo worktree add --detach $S/repo HEAD -q || exit 2
 sed -i "s#/repo/falcon-rust#$S/repo/falcon-rust#" $S/verif/sim/Cargo.toml
-mode=$(/verif/tools/apply_seeded.sh $S/repo "$PATCH")
+mode=$(/verif/tools/apply_seeded.sh $S/repo "$PATCH" "$1")
 if [ "$mode" = FAIL ]; then echo "patch does not apply"; git -C /repo worktree remove --force $S/repo; exit 2; fi
 echo "(applied: $mode)"
 extra=""; [ "$mode" = BASE ] && extra="VERIF_C08_NO_FORK=1"
